@@ -16,7 +16,7 @@ RULE = ("npy: files written by write_npy (shapes with 1-5 axes) and by numpy (al
         "be rejected by Array::read_npy and by the model (exhaustive per file; quick: files capped at 400 bytes of data, "
         "thorough: all); text: every removal and insertion of one value token, every single-entry edit of the shape, an "
         "empty value line; on the binary (a slice): view, fold and stat on the damaged file exit non-zero, print no "
-        "spectrum / statistics row, and do not panic. non-trivial = damage inside the value region; files whose data begins with spaces / line feeds (the bytes that pad and end the header); extensions that are (the beginning of) another spectrum file: the npy magic, a second npy file, a text spectrum")
+        "spectrum / statistics row, and do not panic. non-trivial = damage inside the value region; files whose data begins with spaces / line feeds (the bytes that pad and end the header); extensions that are (the beginning of) another spectrum file: the npy magic, a second npy file, a text spectrum; lone carriage returns, form feeds and tabs as the only separators")
 
 
 def check(rep, tier, seed):
@@ -114,13 +114,20 @@ def check(rep, tier, seed):
             return ("#SHAPE=<%s>\n%s%s" % ("/".join(map(str, shape)), body, final)).encode()
         row = sh[-1]
         layouts = [("one token per line", ["\n"], "\n"), ("rows", [" "] * (row - 1) + ["\n"], "\n"), ("tabs and crlf", ["\t", "\r\n", "  "], "\r\n"),
-                   ("no final newline", [" "], ""), ("blank lines", ["\n\n", " "], "\n\n")]
+                   ("no final newline", [" "], ""), ("blank lines", ["\n\n", " "], "\n\n"),
+                   # every ASCII whitespace character separates two tokens on its own: a lone carriage return, form feed, tab
+                   ("lone carriage returns", ["\r"], "\r"), ("carriage returns and spaces", [" ", "\r", "\r\r"], "\n"), ("form feeds", ["\x0c", " "], "\n"),
+                   ("mixed whitespace", ["\r", "\t", "\x0c", "\n", " \r "], "")]
         for lname, seps, final in layouts:
             tcases.append("read %s" % layout(sh, vals, seps, final).hex()); tlabels.append(("valid, " + lname, True))
             tcases.append("read %s" % layout(sh, vals[:-1], seps, final).hex()); tlabels.append(("remove last token, " + lname, False))
             tcases.append("read %s" % layout(sh, vals + ["1"], seps, final).hex()); tlabels.append(("append token, " + lname, False))
             i = rng.randrange(len(vals))
             tcases.append("read %s" % layout(sh, vals[:i] + vals[i + 1:], seps, final).hex()); tlabels.append(("remove token %d, %s" % (i, lname), False))
+        # a complete spectrum followed by another one, by a header line, by a '#' and more tokens: one spectrum per file
+        for tail in (good, b"#SHAPE=<2>\n1 2\n", b"#SHAPE=<1>\n", b"# 4\n", b"#\n4\n", b"#4", b" # 4 5\n"):
+            tcases.append("read %s" % (good + tail).hex()); tlabels.append(("followed by %r" % tail[:12], False))
+        tcases.append("read %s" % (text_spectrum(sh, vals[:-1]) + b"#" + vals[-1].encode() + b"\n").hex()); tlabels.append(("last token behind a '#'", False))
         # a complete first line of values followed by surplus tokens on later lines (and a short first line completed later)
         tcases.append("read %s" % (good + b"4\n").hex()); tlabels.append(("surplus token on a second line", False))
         tcases.append("read %s" % (good + " ".join(vals).encode() + b"\n").hex()); tlabels.append(("values line written twice", False))
